@@ -16,6 +16,12 @@ Observables per generated triangle t (1-4 slices, Cell / CumulativeCell / Increm
     nulls, un-padded month/day) -> from_dict = model `fromDict` = `Triangle(plainRead doc)`
   * out-of-domain stream (risk_basis None, hook trigger names as field/detail keys): model vs
     implementation only (no Spec): both raise / both give the same cells.
+  * SEQUENCE stream (state carried between calls): before the calls under test, in the same process,
+    (a) to_dict() of the same triangle is called and the returned document edited in place everywhere,
+    (b) a "twin" triangle is exported / imported whose metadata is ==-equal (same hash) but has the
+    kinds of limit / detail values swapped (1 <-> 1.0, True -> 1), (c) the previous case's triangle is
+    exported / imported again; for a quarter of the cases every route is run twice and must give the
+    identical document / triangle; the exported triangle itself must be unchanged.
 """
 import dataclasses
 import io
@@ -282,6 +288,74 @@ def out_of_domain(rng, cells):
     return how, cells
 
 
+
+# ---- sequence stream: state carried between calls (caches, aliased results) ---------------------
+
+def kind_swap(v):
+    """a value that is == to v in Python but of another kind (1 <-> 1.0, True -> 1)"""
+    if isinstance(v, bool):
+        return int(v)
+    if isinstance(v, int):
+        return float(v)
+    if isinstance(v, float) and v == int(v) and abs(v) < 2 ** 50:
+        return int(v)
+    return v
+
+
+def twin_triangle(t):
+    """same cells, metadata ==-equal (same hash) but with the kinds of limit / detail values swapped"""
+    cache = {}
+
+    def tw(m):
+        if m not in cache:
+            cache[m] = dataclasses.replace(
+                m, per_occurrence_limit=kind_swap(m.per_occurrence_limit),
+                details={k: kind_swap(v) for k, v in m.details.items()},
+                loss_details={k: kind_swap(v) for k, v in m.loss_details.items()})
+        return cache[m]
+    return Triangle([c.replace(metadata=tw(c.metadata)) for c in t.cells])
+
+
+def scramble(x):
+    """edit a returned document in place, everywhere"""
+    if isinstance(x, dict):
+        for k in list(x):
+            if isinstance(x[k], (dict, list)):
+                scramble(x[k])
+            elif k not in ("period_start", "period_end", "evaluation_date", "prev_evaluation_date"):
+                x[k] = "EDITED" if isinstance(x[k], str) else -987654321
+        x["zz_edited"] = True
+    elif isinstance(x, list):
+        for e in x:
+            scramble(e)
+        x.reverse()
+
+
+def prime(rng, t, td, state):
+    """calls made BEFORE the calls under test, in the same process; returns the mode used"""
+    mode = rng.choice(["none", "none", "edit-result", "twin", "previous", "twin+edit"])
+    if "edit-result" in mode or "edit" in mode:
+        st, d0 = call(t.to_dict)
+        if st == "ok":
+            scramble(d0)
+    if "twin" in mode:
+        st, tw = call(twin_triangle, t)
+        if st == "ok":
+            st, d = call(tw.to_dict)
+            if st == "ok" and "edit" in mode:
+                scramble(d)
+            st, s = call(tw.to_json)
+            if st == "ok":
+                call(bermuda.json_string_to_triangle, s)
+    if mode == "previous" and state.get("prev") is not None:
+        pt = state["prev"]
+        st, s = call(pt.to_json)
+        if st == "ok":
+            call(bermuda.json_string_to_triangle, s)
+            call(Triangle.from_dict, json.loads(s))
+    state["prev"] = t
+    return mode
+
 # ---- implementation routes ----------------------------------------------------------------------
 
 def impl_routes(t, td):
@@ -337,6 +411,7 @@ def correspondence(ctx):
     n_plain = 1500 if ctx.thorough else 120
     n_ood = 300 if ctx.thorough else 40
     reqs, info = [], []
+    seq_state = {}
 
     with tempfile.TemporaryDirectory(prefix="verif-c07-") as td:
         # (i)+(ii) round trips, dyadic and non-dyadic floats
@@ -349,7 +424,24 @@ def correspondence(ctx):
             if st != "ok":
                 raise common.Infra("generator produced an invalid triangle")
             wire = jw_cells(t.cells)
+            mode = prime(rng, t, td, seq_state)
             asts, loads = impl_routes(t, td)
+            ctx.count(f"sequence/primed by {mode}")
+            if rng.random() < 0.25:
+                # the same calls once more on the same objects: identical documents and triangles
+                asts2, loads2 = impl_routes(t, td)
+                ctx.count("sequence/repeated")
+                for name in asts:
+                    a1, a2 = asts[name], asts2.get(name)
+                    if a1[0] == "ok" and (a2 is None or a2[0] != "ok" or canon_tag(tag(a1[1])) != canon_tag(tag(a2[1]))):
+                        ctx.fail(f"{name}: a second export of the same triangle gives a different document",
+                                 {"cells": wire})
+                for name in loads:
+                    if loads2.get(name) is None or dump(loads[name]) != dump(loads2[name]):
+                        ctx.fail(f"{name}: a second import of the same document gives a different triangle",
+                                 {"cells": wire})
+            if jw_cells(t.cells) != wire:
+                ctx.fail("export / import changed the triangle that was exported", {"cells": wire})
             desc = gen.describe(t.cells)
             stream = "nondyadic" if nd else "roundtrip"
             ctx.count(f"{stream}/slices={desc.get('slices')}")
